@@ -63,6 +63,20 @@ class Ctx:
     def note(self, s):
         self.notes.append(s)
 
+    def include(self, module_run, rules, as_rule):
+        """run another property's rule function and import the obligations of the listed rule ids (a rule shared by two
+        properties is evaluated once per check run, on the same facts)"""
+        sub = Ctx(self.prog, self.prop, self.tier)
+        module_run(sub)
+        for i in sub.instances:
+            if i['rule'] in rules:
+                if i['verdict'] == 'holds':
+                    self.ok(as_rule, '[%s] %s' % (i['rule'], i['what']), i['where'])
+        for f in sub.findings:
+            r = f['key'].split('|', 1)[0]
+            if r in rules:
+                self.fail(as_rule, f['key'], f['msg'], f['where'])
+
     def body(self, path):
         try:
             return self.prog.body(path)
